@@ -179,9 +179,10 @@ fn main() {
                 ctx.case(line, true, "corpus");
             }
         }
-        let aborted = std::panic::catch_unwind(std::panic::AssertUnwindSafe(|| gen::generate(&prop, &mut ctx))).is_err();
-        if aborted {
-            ctx.monitor(false, "generator-aborted", "-", "the case generator itself panicked while driving the implementation; cases emitted so far are kept");
+        let aborted = std::panic::catch_unwind(std::panic::AssertUnwindSafe(|| gen::generate(&prop, &mut ctx)));
+        if let Err(payload) = aborted {
+            let what = payload.downcast_ref::<&str>().map(|s| s.to_string()).or_else(|| payload.downcast_ref::<String>().cloned()).unwrap_or_default();
+            ctx.monitor(false, "generator-aborted", "-", &format!("the case generator itself panicked while driving the implementation; cases emitted so far are kept [{}]", what));
         }
         ctx.cases.flush().unwrap();
         ctx.imp.flush().unwrap();
